@@ -124,7 +124,7 @@ old = {}
 mp = os.path.join(sd, "meta.json")
 if os.path.exists(mp):
     old = json.load(open(mp))
-    for k in ("needs", "what", "breaks_property"):
+    for k in ("needs", "what", "breaks_property", "note", "reported_by_checks"):
         if k in old:
             meta.setdefault(k, old[k])
     if not suite and "suite_with_patch" in old:
